@@ -117,6 +117,23 @@ func VerifH08a() {
 		vReach("truncated")
 		return
 	}
+	// a format code is 0 (text) or 1 (binary): any other value makes the Bind a
+	// failing message — one ErrorResponse, connection kept, no portal
+	badCode := false
+	for _, c := range ref.fcodes {
+		badCode = vOr(badCode, c > 1)
+	}
+	for _, c := range ref.rcodes {
+		badCode = vOr(badCode, c > 1)
+	}
+	if badCode {
+		vAssert("inadmissible-format-code-keeps-connection", err == nil)
+		vAssert("inadmissible-format-code-is-error", got == "E")
+		p, _ := w.ses.Portals.Get(w.ctx, string(ref.portal))
+		vAssert("inadmissible-format-code-creates-no-portal", p == nil)
+		vReach("inadmissible-format-code")
+		return
+	}
 	known := len(ref.stmt) == 1 && ref.stmt[0] == 'a'
 	hasNull := false
 	for k := 0; k < ref.nv; k++ {
@@ -564,6 +581,19 @@ func VerifH08s() {
 	w.execMenu = 1
 	vAssert("set-ok", w.ses.Statements.Set(w.ctx, "a", w.mkStmt(1, 0)) == nil)
 	err := w.ses.handleBind(w.ctx, &buffer.Reader{Msg: body, MaxMessageSize: 64}, w.wr)
+	// the codes are any 16-bit values: only 0 and 1 are format codes, a Bind
+	// carrying another value fails with one ErrorResponse and binds nothing
+	bad := false
+	for _, c := range codes {
+		bad = vOr(bad, c > 1)
+	}
+	if bad {
+		vAssert("inadmissible-format-code-is-one-error", err == nil && vTypes(w.conn.out) == "E")
+		q, _ := w.ses.Portals.Get(w.ctx, "")
+		vAssert("inadmissible-format-code-binds-nothing", q == nil)
+		vReach("inadmissible-format-code")
+		return
+	}
 	vAssert("bind-accepted", err == nil && vTypes(w.conn.out) == "2")
 	p, _ := w.ses.Portals.Get(w.ctx, "")
 	vAssert("portal-created", p != nil)
